@@ -388,6 +388,34 @@ func runC03(r *Run, p *Prog) {
 					rd, wr := termsOf(T, fs[rdF]), termsOf(T, fs[wrF])
 					okk := len(fs[rdF]) == 1 && pipeOrigin(T, fs[rdF][0], "exec.Cmd.StdoutPipe", 0) && len(fs[wrF]) == 1 && pipeOrigin(T, fs[wrF][0], "exec.Cmd.StdinPipe", 0)
 					r.Ob("P6", shortName(f), "bridge reads the child's stdout and writes its stdin", a.Pos(), okk, fmt.Sprintf("reader=%v writer=%v", rd, wr))
+					// ... and the command is running: every success return of the constructor has passed cmd.Start() and
+					// seen its error nil (in the constructor's inlined view: the platform files share one body or not)
+					top := f
+					for top.Parent() != nil {
+						top = top.Parent()
+					}
+					v := p.Inlined(top, nil)
+					var starts []*ssa.Call
+					for _, cs := range callsNamed(v, false, "exec.Cmd.Start") {
+						if c, ok := cs.Instr.(*ssa.Call); ok {
+							starts = append(starts, c)
+						}
+					}
+					if res := v.Signature.Results(); res.Len() > 0 && isErrorType(res.At(res.Len()-1).Type()) {
+						for _, rv := range returnedValues(v, res.Len()-1) {
+							if k, isK := rv.Val.(*ssa.Const); !isK || !k.IsNil() {
+								continue
+							}
+							started := false
+							for _, sc := range starts {
+								if hasFact(T.FactsAt(rv.Ret.Block()), "EQ", T.T(sc), "nil") {
+									started = true
+								}
+							}
+							r.Ob("P6", shortName(v), "the bridge command has been started (Start() == nil) wherever the constructor succeeds", rv.Ret.Pos(), started,
+								"a connection is returned although the bridge command was not started, or its start is not known to have succeeded: every call on it blocks or fails")
+						}
+					}
 				}
 			}
 		}
